@@ -364,7 +364,7 @@ def rule_layout(ctx):
     ctx.ob('C06-R7', it, '2-D branch: value[i, j] placed by coordinate lookup, same-named column', ok,
            'i from FL, j from mass' if ok else 'grid fill-in no longer matches the (FL, mass) coordinate order')
     xs2 = [st for t, st, how in stores_to(it.node) if norm(t) == 'self.xs']
-    ok = len(xs2) == 2 and norm(xs2[0].value) == '(np.array(fls), np.array(masses))' and norm(xs2[1].value) == '(np.array(fls),)'
+    ok = len(xs2) == 2 and {norm(x.value) for x in xs2} == {'(np.array(fls), np.array(masses))', '(np.array(fls),)'}
     ctx.ob('C06-R7', it, 'grid axes (FL, mass) / (FL,)', ok, 'axis order matches the query tuple' if ok else 'grid axes order changed')
     shp = single_def_value(it.node, 'shape')
     ok = shp is not None and norm(shp) == '(len(fls), len(masses))'
